@@ -1112,6 +1112,526 @@ def _corr_styles(ctx, uc):
             pass
 
 
+# ----------------------------------------------------------------------------------------
+# sessions: sequences of working-unit configurations in ONE process, the same expression strings re-evaluated after
+# every change (spelled identically: anything the module remembers about a string is hit; spelled as never before:
+# it is missed), configurations differing in exactly one base quantity, all ordered pairs of a core list
+# ----------------------------------------------------------------------------------------
+POOL_SRC = ['m', 'kg', 's', 'C', 'K', 'angstrom', 'nm', 'amu', 'g', 'ps', 'fs', 'e', 'uC', 'mK', 'eV', 'J', 'N', 'Pa',
+            'GPa', 'V', 'A', 'ohm', 'F', 'T', 'kB', 'hbar', 'eps0', 'mu0', 'Rgas', 'sigmaSB', 'debye', 'Hartree', 'aBohr',
+            'e*angstrom', 'C*m', 'V/angstrom', 'N/C', 'e^2/(eps0*angstrom)', 'kB*K', 'eV/K', 'kB*mK/eV', 'J/(kg*K)',
+            'W/(m*K)', 'kg*m^2/s^2', 'amu*angstrom^2/ps^2', '(eV/angstrom^3)', 'C^2*s^2/(kg*m^3)', 'A*s', 'C/kg', 'e/amu',
+            'V*s/m^2', 'K^-1', '2*K^2', 'm^-1*s', 'g/cm^3', 'amu/angstrom^3', 'angstrom/ps', 'm/s', 'kg*m/s^2', 'dyn',
+            '(C)', ' C ', 'C^2', '1/C', '1/K', 'K*K', 's^-2', 'kg^-1', 'm^3', '2^3', '10', 'eV*s', 'hbar/ps', '(m)', '(kg)',
+            '(s)', '(K)', 'e*V', 'uC/e', 'mK/K', '1.5 * ( kB * K ) / eV', 'J/s', 'W', 'kg/s', 'm*kg', 'K*C', 'm*s*kg*C*K']
+K_NAMES = ['K', 'mK', 'uK', 'nK']
+_FRESH = [0]
+
+
+def _fresh_ws():
+    """a run of blanks no earlier call of this process has used (positional notation over the four blanks)."""
+    _FRESH[0] += 1
+    n, out = _FRESH[0], ''
+    while n:
+        out += WS[n % 4]
+        n //= 4
+    return out
+
+
+class _Pool:
+    """expression strings covering every base dimension alone and in combination; `items` = (string, tree, dimension,
+    exact SI value, rounding bound).  Fixed list + names drawn per run from the table by kind."""
+
+    def __init__(self, rng, t):
+        src = list(POOL_SRC)
+        for kd in KINDS:
+            src += rng.sample(t.by_kind[kd], 2)
+        src += rng.sample(K_NAMES, 2)
+        for _ in range(12):
+            tree = gen_tree(rng, rng.choice([1, 2, 3]), t.names)
+            src.append(render(rng, tree, 2, messy=rng.choice([0.0, 0.4]), extra=rng.choice([0.0, 0.2])))
+        self.items = []
+        seen = set()
+        for x in src:
+            tree = shadow_parse(x)
+            if tree is None or x in seen:
+                continue
+            try:
+                v, d, e = ev(tree, t.si, t.dims, EU)
+            except (Outside, EvalErr):
+                continue
+            if v == 0:
+                continue
+            seen.add(x)
+            self.items.append((x, tree, tuple(d), v, e))
+        for i in range(5):
+            pure = [it for it in self.items if it[2][i] != 0 and sum(1 for y in it[2] if y) == 1]
+            mixed = [it for it in self.items if it[2][i] != 0 and sum(1 for y in it[2] if y) > 1]
+            if len(pure) < 3 or len(mixed) < 3:
+                raise cm.InfraError(f'harness self-check: the session pool does not cover base dimension {BASE[i]}')
+        self.by_dim = {}
+        for it in self.items:
+            self.by_dim.setdefault(it[2], []).append(it)
+        self.pairs = [(a, b) for grp in self.by_dim.values() if len(grp) > 1 for a in grp for b in grp if a is not b]
+
+
+def _L(**kw):
+    return {'kind': 'named', 'kw': kw}
+
+
+def core_configs():
+    """named configurations such that for every base quantity (m, kg, s, C — and J, which moves the one base unit the
+    other keywords leave free) two members differ in that quantity alone; charge named / absent / SI by name; SI;
+    seeds; numericalunits set directly (the only way to move K alone)."""
+    a, u, p, e = 'angstrom', 'amu', 'ps', 'e'
+    ang = 1e10
+    return [
+        _L(length=a, mass=u, energy='eV', charge=e),            # the atomman default
+        _L(length=a, mass=u, energy='eV', charge='C'),          # charge alone differs
+        _L(length=a, mass=u, energy='eV'),                      # charge absent (same scalings as the previous one)
+        _L(length=a, mass=u, energy='J', charge=e),             # energy alone differs: only s moves
+        _L(length=a, mass=u, time=p, charge=e),
+        _L(length='nm', mass=u, time=p, charge=e),              # only m
+        _L(length=a, mass='g', time=p, charge=e),               # only kg
+        _L(length=a, mass=u, time='fs', charge=e),              # only s
+        _L(length=a, mass=u, time=p, charge='uC'),              # only C
+        _L(length=a, mass=u, time=p),                           # charge absent
+        _L(length='m', mass='kg', time='s', charge='C'),        # SI by name
+        _L(length=a, time=p, energy='eV', charge=e),            # energy fixes the mass unit
+        _L(length=a, time=p, energy='J', charge=e),             # only kg moves
+        _L(mass=u, time=p, energy='eV', charge=e),              # energy fixes the length unit
+        _L(mass=u, time=p, energy='J', charge=e),               # only m moves
+        _L(charge='e'), _L(energy='eV'),
+        {'kind': 'SI'},
+        {'kind': 'seed', 'seed': 12345}, {'kind': 'seed', 'seed': 54321},
+        {'kind': 'direct', 'scales': [ang, 6.0221407e26, 1e12, 1.0, 1.0]},
+        {'kind': 'direct', 'scales': [ang, 6.0221407e26, 1e12, 1.0, 1000.0]},     # only K
+        {'kind': 'direct', 'scales': [1.0, 1.0, 1.0, 1.0, 0.25]},                # SI but for K
+    ]
+
+
+def euler_walk(n):
+    """closed walk through every ordered pair (i, j), i != j, of range(n) exactly once (Hierholzer)."""
+    if n < 2:
+        return list(range(n))
+    nxt = {i: [j for j in range(n) if j != i] for i in range(n)}
+    stack, out = [0], []
+    while stack:
+        v = stack[-1]
+        if nxt[v]:
+            stack.append(nxt[v].pop())
+        else:
+            out.append(stack.pop())
+    return out[::-1]
+
+
+def one_key_walk(rng, t, steps):
+    """random walk over working-unit configurations changing exactly ONE keyword per step (another name of the kind,
+    keyword dropped, keyword added), with excursions: SI, a seed, the temperature unit alone (numericalunits set
+    directly), a reset that raises half-way (unknown name: leaves SI) and a refused one (five keywords: leaves the
+    state alone)."""
+    kw = dict(DEFAULT_KW)
+    out = [{'kind': 'named', 'kw': dict(kw)}]
+    while len(out) < steps:
+        r = rng.random()
+        if r < 0.06:
+            out.append({'kind': 'SI'})
+        elif r < 0.12:
+            out.append({'kind': 'seed', 'seed': rng.randrange(1, 10 ** 6)})
+        elif r < 0.18:
+            out.append({'kind': 'direct-k', 'k': rng.choice([0.25, 4.0, 1000.0, 1e-3, 3.0])})
+        elif r < 0.22:
+            bad = dict(kw)
+            bad[rng.choice(list(bad))] = rng.choice(['nounit', 'Angstrom', 'EV', ''])
+            out.append({'kind': 'fail', 'kw': bad, 'leaves': 'SI'})
+        elif r < 0.25:
+            out.append({'kind': 'fail', 'kw': {k: rng.choice(t.by_kind[k]) for k in KINDS}, 'leaves': 'same'})
+        else:
+            for _ in range(50):
+                new = dict(kw)
+                k = rng.choice(KINDS)
+                if k in new and rng.random() < 0.25 and len(new) > 1:
+                    del new[k]
+                else:
+                    if k not in new and len(new) >= 4:
+                        continue
+                    new[k] = rng.choice([n for n in t.by_kind[k] if n != new.get(k)])
+                if new != kw and in_float_range(predict_scales(new, t.si), t):
+                    kw = new
+                    out.append({'kind': 'named', 'kw': dict(kw)})
+                    break
+    return out
+
+
+def _apply_any(cfg, uc):
+    """like _apply, plus numericalunits set directly followed by build_unit() and the failing resets.
+    -> ('ok', scales) | ('raised', exception) """
+    import numericalunits as nu
+    k = cfg['kind']
+    try:
+        if k == 'direct':
+            sc = list(cfg['scales'])
+            for b, v in zip(BASE, sc):
+                setattr(nu, b, float(v))
+            nu.set_derived_units_and_constants()
+            _timed(uc.build_unit)
+            return 'ok', sc
+        if k == 'fail':
+            _timed(uc.reset_units, **cfg['kw'])
+            return 'ok', [float(getattr(nu, b)) for b in BASE]
+        return 'ok', _apply(cfg)
+    except Hang:
+        raise
+    except Exception as e:  # noqa
+        return 'raised', e
+
+
+def _cfg_str_any(cfg):
+    if cfg['kind'] == 'direct':
+        return 'numericalunits (m, kg, s, C, K) = %r; build_unit()' % (tuple(cfg['scales']),)
+    if cfg['kind'] == 'fail':
+        return 'reset_units(' + ', '.join(f'{k}={v!r}' for k, v in cfg['kw'].items()) + ') [raises]'
+    return _cfg_str(cfg)
+
+
+def _claims_one(cfg):
+    """named, <= 4 keywords, not over-determined: the property's 'each chosen unit is one'."""
+    return cfg['kind'] == 'named' and 0 < len(cfg['kw']) <= 4 and not _over(cfg['kw'])
+
+
+def _table_bound(d):
+    """unit[name] = const * prod(base^dim): EU roundings inside numericalunits, each base scaling within 24 roundings
+    of its exact value (reset_units: a division, the energy branch, one square root), one pow and one product per
+    base unit."""
+    return (EU + 4 + 26 * sum(abs(x) for x in d)) * U
+
+
+class _Session:
+    """the running history of one process: what was applied (for messages and replays)."""
+
+    def __init__(self, ctx, uc, pool, mode):
+        self.ctx, self.uc, self.pool, self.mode = ctx, uc, pool, mode
+        self.trail = []          # configurations applied so far
+        self.t = _tab()
+        self.terms = {}          # set_literal terms spelled once and re-used: string -> (value literal, pool item)
+        self.reported = set()
+        self.slack = 0.0         # roundings (per unit of |dim|) by which the model's scalings may differ from the real ones
+
+    # -- helpers -------------------------------------------------------------------------------------------------
+    def _hist(self):
+        return ' -> '.join(_cfg_str_any(c) for c in self.trail[-3:])
+
+    def _replay(self, strings):
+        return {'op': 'session', 'steps': self.trail[-3:], 'strings': list(strings)[:6]}
+
+    def _viol(self, key, what, strings=()):
+        if (key, 'v') in self.reported:
+            return
+        self.reported.add((key, 'v'))
+        self.ctx.violate(key, what + f'   [session: {self._hist()}]', self._replay(strings))
+
+    def _dis(self, key, what, strings=()):
+        if (key, 'd') in self.reported:
+            return
+        self.reported.add((key, 'd'))
+        self.ctx.disagree(key, what + f'   [session: {self._hist()}]', self._replay(strings))
+
+    def expected_scales(self, cfg, prev):
+        """what the configuration demands of (m, kg, s, C, K), independent of the module: named -> predict_scales, SI ->
+        ones, direct -> as given, failing resets -> SI / unchanged; seeds -> None (numericalunits chooses)."""
+        k = cfg['kind']
+        if k == 'named':
+            return predict_scales(cfg['kw'], self.t.si)
+        if k == 'SI':
+            return [1.0] * 5
+        if k == 'direct':
+            return list(cfg['scales'])
+        if k == 'fail':
+            return [1.0] * 5 if cfg['leaves'] == 'SI' else prev
+        return None
+
+    # -- one step ------------------------------------------------------------------------------------------------
+    def step(self, cfg, rng, prev_scales, n_fresh, n_pairs):
+        """apply `cfg`, then evaluate the pool. -> scalings believed to be in force (or None)."""
+        ctx, uc, t = self.ctx, self.uc, self.t
+        np = _np()
+        if cfg['kind'] == 'direct-k':         # the temperature unit alone: absolute form of "as now, but K"
+            if prev_scales is None:
+                return None
+            cfg = {'kind': 'direct', 'scales': [float(x) for x in prev_scales[:4]] + [cfg['k']]}
+        self.trail.append(cfg)
+        status, got = _apply_any(cfg, uc)
+        ctx.stats.case(self.mode + ':session-step', (len(self.trail), _cfg_str_any(cfg)),
+                       sample={'cfg': _cfg_str_any(cfg), 'after': _cfg_str_any(self.trail[-2]) if len(self.trail) > 1 else None})
+        want_sc = self.expected_scales(cfg, prev_scales)
+        if cfg['kind'] == 'fail':
+            if status != 'raised' and self.mode == 'corr':
+                self._dis('session:reset-accepted', f'{_cfg_str_any(cfg)} is accepted')
+        elif status == 'raised':
+            (self._viol if self.mode == 'search' else self._dis)(
+                'session:reset-raises', f'{_cfg_str_any(cfg)} raises {type(got).__name__}: {got}')
+            return None
+        if cfg['kind'] == 'seed':
+            want_sc = got                      # numericalunits' own choice
+        real = {k: float(v) for k, v in uc.unit.items()}
+        vals = {k: Fraction(v) for k, v in real.items()}
+        if self.mode == 'search':
+            # the state a failing reset leaves is the model's business (correspondence), not a clause of the property
+            self._oracle(cfg, rng, None if cfg['kind'] == 'fail' else want_sc, real, vals, n_fresh, n_pairs, np)
+        else:
+            self._model(cfg, rng, want_sc, got if status == 'ok' else None, real, vals, n_fresh, n_pairs, np)
+        return want_sc
+
+    def _inside(self, vals):
+        """pool items whose exact intermediate values stay inside the double range under the table now in force:
+        item string -> (exact value, rounding bound)."""
+        ok = {}
+        for it in self.pool.items:
+            try:
+                v, _, e = ev(it[1], vals, None, 0.0)
+            except (Outside, EvalErr):
+                continue
+            ok[it[0]] = (v, e)
+        return ok
+
+    def _spellings(self, rng, n_fresh, ok):
+        """(item, string, cached?) : every pool item as first spelled, plus n_fresh items spelled as never before."""
+        items = [it for it in self.pool.items if it[0] in ok]
+        out = [(it, it[0], True) for it in items]
+        for it in rng.sample(items, min(n_fresh, len(items))):
+            out.append((it, render(None, it[1], 2, wsfix=_fresh_ws()), False))
+        return out
+
+    def _literal_terms(self, rng, n, ok):
+        """'value unit' terms: a few spelled once per process and re-used at every step, a few new ones."""
+        return [x for x in self._literal_terms0(rng, n) if x[2][0] in ok]
+
+    def _literal_terms0(self, rng, n):
+        out = []
+        if len(self.terms) < 12:
+            for it in rng.sample(self.pool.items, 12):
+                value = rng.choice(VALUE_LITS)
+                self.terms.setdefault(value + ' ' + it[0].strip(), (value, it))
+        for term, (value, it) in list(self.terms.items())[:n]:
+            out.append((term, value, it))
+        for it in rng.sample(self.pool.items, 2):
+            value = rng.choice(VALUE_LITS)
+            out.append((value + ' ' + render(None, it[1], 2, wsfix=_fresh_ws()), value, it))
+        return out
+
+    # -- the property's clauses on the real code -------------------------------------------------------------------
+    def _oracle(self, cfg, rng, want_sc, real, vals, n_fresh, n_pairs, np):
+        ctx, uc, t = self.ctx, self.uc, self.t
+        # (a) the table is const * prod(base^dim) for the scalings this configuration demands
+        if want_sc is not None and all(x > 0 for x in want_sc):
+            for n, d in t.dims.items():
+                pred = float(t.si[n]) * math.prod(x ** k for x, k in zip(want_sc, d))
+                r = real.get(n)
+                if r is None or not abs(r - pred) <= _table_bound(d) * abs(pred):
+                    self._viol('session:unit-table', f'unit[{n!r}] = {r!r} after {_cfg_str_any(cfg)}; with base units '
+                               f'(m, kg, s, C, K) = {want_sc} it is {pred!r}', [n])
+                    break
+        # (b) each chosen unit is one — through every way of reading a unit
+        if _claims_one(cfg):
+            for k, n in cfg['kw'].items():
+                ctx.stats.case('oracle:session-chosen', (len(self.trail), n))
+                reads = {'unit[%r]' % n: lambda: uc.unit[n], 'parse(%r)' % n: lambda: _timed(uc.parse, n),
+                         'set_in_units(1.0, %r)' % n: lambda: float(_timed(uc.set_in_units, 1.0, n)),
+                         'get_in_units(1.0, %r)' % n: lambda: float(_timed(uc.get_in_units, 1.0, n)),
+                         'set_literal(%r)' % ('1 ' + n): lambda: float(_timed(uc.set_literal, '1 ' + n))}
+                for label, f in reads.items():
+                    try:
+                        v = f()
+                    except Hang:
+                        raise
+                    except Exception as ex:  # noqa
+                        v = f'{type(ex).__name__}: {ex}'
+                    if isinstance(v, str) or not abs(v - 1.0) <= 64 * U:
+                        self._viol('session:chosen-one', f'after {_cfg_str_any(cfg)} uc.{label} = {v!r}, not 1', [n])
+        # (c) every expression has the value the ordinary grammar gives it over the table now in force
+        ok = self._inside(vals)
+        for it, s, cached in self._spellings(rng, n_fresh, ok):
+            ctx.stats.case('oracle:session-parse', (len(self.trail), s))
+            v, e = ok[it[0]]
+            impl = _real_parse(uc, s)
+            if impl == 'err' or abs(Fraction(impl) - v) > _tol(v, e):
+                self._viol('session:parse', f'uc.parse({s!r}) = {impl!r} after {_cfg_str_any(cfg)}; the expression is '
+                           f'{tree_str(it[1])} = {_f(v)!r} with the units now in force '
+                           f'({"spelled as in earlier calls" if cached else "spelled as never before"})', [s])
+        # (d) working-unit independence: x [s1] in [s2] is the SI ratio — one side spelled as before, the other fresh
+        pairs = rng.sample(self.pool.pairs, min(n_pairs, len(self.pool.pairs)))
+        for a, b in pairs:
+            if a[0] not in ok or b[0] not in ok:
+                continue
+            xs = [1.0, cm.dyadic(rng, -8, 8, 3), rng.uniform(-100, 100)]
+            for s1, s2 in ((a[0], render(None, b[1], 2, wsfix=_fresh_ws())), (render(None, a[1], 2, wsfix=_fresh_ws()), b[0]),
+                           (a[0], b[0])):
+                ctx.stats.case('oracle:session-independence', (len(self.trail), s1, s2))
+                if not all(_mag_ok(Fraction(x) * ok[a[0]][0]) for x in xs):
+                    continue
+                want = [Fraction(x) * a[3] / b[3] for x in xs]
+                try:
+                    gotv = np.asarray(_timed(uc.get_in_units, _timed(uc.set_in_units, np.array(xs), s1), s2)).tolist()
+                except Hang:
+                    raise
+                except Exception as ex:  # noqa
+                    gotv = f'{type(ex).__name__}: {ex}'
+                if isinstance(gotv, str) or any(g != g or abs(g) == float('inf') or
+                                                not abs(Fraction(g) - w) <= Fraction(_tol(w, a[4] + b[4] + 2))
+                                                for g, w in zip(gotv, want)):
+                    self._viol('session:independence', f'{xs} [{s1}] in [{s2}] after {_cfg_str_any(cfg)} is {gotv}; in SI '
+                               f'units it is {[float(x) for x in want]} (both have dimension {a[2]})', [s1, s2])
+        # (e) set_literal
+        for term, value, it in self._literal_terms(rng, 6, ok):
+            ctx.stats.case('oracle:session-set_literal', (len(self.trail), term))
+            v, e = ok[it[0]]
+            want = lit_value(value) * v
+            try:
+                gotv = float(_timed(uc.set_literal, term))
+            except Hang:
+                raise
+            except Exception as ex:  # noqa
+                gotv = f'{type(ex).__name__}: {ex}'
+            if isinstance(gotv, str) or not abs(Fraction(gotv) - want) <= Fraction(_tol(want, e + 2)):
+                self._viol('session:set_literal', f'uc.set_literal({term!r}) = {gotv!r} after {_cfg_str_any(cfg)}; '
+                           f'{value} [{it[0]}] is {float(want)!r}', [term])
+
+    # -- the session model (driver ops sreset / scales / unit / parseu / conv / setlit) ------------------------------
+    def _model(self, cfg, rng, want_sc, got_sc, real, vals, n_fresh, n_pairs, np):
+        ctx, uc, t = self.ctx, self.uc, self.t
+        if cfg['kind'] in ('named', 'fail'):
+            kw = cfg['kw']
+            if not all(kw.values()):
+                out = 'err:value'
+                ctx.driver.ask('scales 1 1 1 1 1')           # an empty name cannot travel; the call leaves SI
+            else:
+                ch = _choice_line(kw)
+                rad = ctx.driver.ask('radicand ' + ch)
+                r = Fraction(1)
+                if rad != 'none' and not rad.startswith('err:'):
+                    x = Fraction(rad)
+                    r = Fraction(math.sqrt(float(x))) if x >= 0 else Fraction(1)
+                out = ctx.driver.ask(f'sreset {ch} {cm.fr(r)}')
+            if cfg['kind'] == 'fail':
+                if not out.startswith('err:'):
+                    self._dis('session:reset', f'model accepts {_cfg_str_any(cfg)}: {out}')
+                    return
+                if cfg['leaves'] == 'SI':
+                    self.slack = 0.0
+            else:
+                if out.startswith('err:'):
+                    self._dis('session:reset', f'{_cfg_str_any(cfg)}: implementation sets {got_sc}, model {out}')
+                    return
+                mv = cm.unfrs(out)
+                if any(abs(Fraction(a) - b) > Fraction(24 * U) * abs(b) for a, b in zip(got_sc, mv)):
+                    self._dis('session:reset', f'{_cfg_str_any(cfg)}: base units (m, kg, s, C, K) = {got_sc}, model '
+                              f'{[float(x) for x in mv]}')
+                    return
+                self.slack = 26.0
+        else:
+            if want_sc is None:
+                return
+            ctx.driver.ask('scales ' + ' '.join(cm.fr(x) for x in want_sc))
+            self.slack = 0.0
+        slack = self.slack
+
+        def bound(mv, e, d):
+            return Fraction(_tol(mv, e)) + Fraction(slack * sum(abs(x) for x in d) * U) * abs(mv)
+        # the table
+        names = sorted(set(n for it in self.pool.items for n in _names_of(it[1])) | set(rng.sample(t.names, 20))
+                       | (set(cfg['kw'].values()) & set(t.names) if 'kw' in cfg else set()))
+        outs = ctx.driver.ask_many(['unit ' + _cps(n) for n in names])
+        for n, out in zip(names, outs):
+            ctx.stats.case('corr:session-unit', (len(self.trail), n))
+            msg = _cmp_val(real.get(n, 'err'), out, lambda mv, n=n: bound(mv, EU, t.dims[n]))
+            if msg:
+                self._dis('session:unit-table', f'unit[{n!r}] after {_cfg_str_any(cfg)}: {msg}', [n])
+        # parse
+        ok = self._inside(vals)
+        sp = self._spellings(rng, n_fresh, ok)
+        outs = ctx.driver.ask_many(['parseu ' + _cps(s) for _, s, _ in sp])
+        for (it, s, cached), out in zip(sp, outs):
+            ctx.stats.case('corr:session-parse', (len(self.trail), s))
+            msg = _cmp_val(_real_parse(uc, s), out, lambda mv, it=it: bound(mv, it[4], it[2]))
+            if msg:
+                self._dis('session:parse', f'uc.parse({s!r}) after {_cfg_str_any(cfg)}: {msg} '
+                          f'({"spelled as in earlier calls" if cached else "spelled as never before"})', [s])
+        # conversions
+        lines, metas = [], []
+        for a, b in rng.sample(self.pool.pairs, min(n_pairs, len(self.pool.pairs))):
+            xs = [1.0, cm.dyadic(rng, -8, 8, 3), rng.uniform(-100, 100)]
+            if a[0] not in ok or b[0] not in ok or not all(_mag_ok(Fraction(x) * ok[a[0]][0]) for x in xs):
+                continue
+            s1, s2 = (a[0], render(None, b[1], 2, wsfix=_fresh_ws())) if rng.random() < 0.5 else \
+                (render(None, a[1], 2, wsfix=_fresh_ws()), b[0])
+            try:
+                r = np.asarray(_timed(uc.get_in_units, _timed(uc.set_in_units, np.array(xs), s1), s2))
+                impl = r.tolist() if r.shape == (3,) and np.isfinite(r).all() else 'err'
+            except Hang:
+                raise
+            except Exception:  # noqa
+                impl = 'err'
+            lines.append('conv 3 ' + ' '.join(cm.fr(x) for x in xs) + ' ' + _cps(s1) + ' | ' + _cps(s2))
+            metas.append((s1, s2, xs, impl, a, b))
+        for (s1, s2, xs, impl, a, b), out in zip(metas, ctx.driver.ask_many(lines)):
+            ctx.stats.case('corr:session-convert', (len(self.trail), s1, s2))
+            if out == 'err:size':
+                continue
+            if impl == 'err' or out.startswith('err:'):
+                bad = None if (impl == 'err' and out.startswith('err:')) else f'implementation {impl}, model {out}'
+            else:
+                mv = cm.unfrs(out)
+                bad = None if all(abs(Fraction(g) - w) <= Fraction(_tol(w, a[4] + b[4] + 2)) for g, w in zip(impl, mv)) \
+                    else f'implementation {impl} != model {[float(x) for x in mv]}'
+            if bad:
+                self._dis('session:convert', f'get_in_units(set_in_units({xs}, {s1!r}), {s2!r}) after {_cfg_str_any(cfg)}: {bad}',
+                          [s1, s2])
+        # set_literal
+        terms = self._literal_terms(rng, 6, ok)
+        outs = ctx.driver.ask_many(['setlit ' + _cps(term) for term, _, _ in terms])
+        for (term, value, it), out in zip(terms, outs):
+            ctx.stats.case('corr:session-set_literal', (len(self.trail), term))
+            try:
+                r = _timed(uc.set_literal, term)
+                impl = float(r) if np.ndim(r) == 0 else 'err'
+            except Hang:
+                raise
+            except Exception:  # noqa
+                impl = 'err'
+            msg = _cmp_val(impl, out, lambda mv, it=it: bound(mv, it[4] + 2, it[2]))
+            if msg:
+                self._dis('session:set_literal', f'uc.set_literal({term!r}) after {_cfg_str_any(cfg)}: {msg}', [term])
+
+
+def _names_of(tree):
+    if tree[0] == 'name':
+        return [tree[1]]
+    if tree[0] == 'num':
+        return []
+    return _names_of(tree[1]) + _names_of(tree[2])
+
+
+def run_sessions(ctx, rng, uc, mode, n_core, walk_steps, n_fresh, n_pairs):
+    """(1) every ordered pair of the first n_core core configurations, consecutively (closed Euler walk: the pool is
+    evaluated under A immediately before B is installed, for all A != B); (2) a one-keyword-at-a-time random walk."""
+    t = _tab()
+    pool = _Pool(rng, t)
+    sess = _Session(ctx, uc, pool, mode)
+    core = [c for c in core_configs() if c['kind'] != 'named' or
+            (all(v in t.si for v in c['kw'].values()) and in_float_range(predict_scales(c['kw'], t.si), t))]
+    # the one-quantity-at-a-time members come first; keep the non-named ones inside any prefix
+    core.sort(key=lambda c: c['kind'] == 'named')
+    core = core[:n_core] if n_core < len(core) else core
+    rng.shuffle(core)
+    prev = None
+    for i in euler_walk(len(core)):
+        prev = sess.step(core[i], rng, prev, n_fresh, n_pairs)
+    for cfg in one_key_walk(rng, t, walk_steps):
+        prev = sess.step(cfg, rng, prev, n_fresh, n_pairs)
+    ctx.extra[mode + '_session_steps'] = len(sess.trail)
+    ctx.extra['session_pool'] = len(pool.items)
+
+
 def correspond(ctx):
     import atomman.unitconvert as uc
     rng = ctx.rng
@@ -1133,6 +1653,7 @@ def correspond(ctx):
             ctx.stats.case('parse:passthrough', repr(u), nontrivial=False)
             if r != want or (u is None and ctx.driver.ask('parsenone') != '1'):
                 ctx.disagree('parse:passthrough', f'uc.parse({u!r}) = {r!r}', {'op': 'passthrough'})
+        run_sessions(ctx, rng, uc, 'corr', ctx.n(14, 99), ctx.n(60, 600), ctx.n(6, 12), ctx.n(4, 10))
         _corr_reset(ctx, rng, uc)
     finally:
         _restore()
@@ -1470,6 +1991,9 @@ def search(ctx, broken):
         scfgs = [{'kind': 'SI'}] + [c for c in cfgs if c['kind'] == 'seed'][:2]
         for st in STYLES:
             _guard(ctx, 'style', {'op': 'style', 'style': st}, _o_style, ctx, uc, lmp, st, t.dims, scfgs)
+        # 7. sessions: every ordered pair of the core configurations, one-keyword-at-a-time walks
+        _guard(ctx, 'session', {'op': 'session', 'steps': [], 'strings': []}, run_sessions, ctx, rng, uc, 'search',
+               99, ctx.n(80, 800) * mult, ctx.n(8, 16), ctx.n(5, 12))
     finally:
         _restore()
         _report_hangs(ctx)
@@ -1521,6 +2045,25 @@ def replay(ctx, payload):
         elif op == 'setlit' and 'value' in r:
             _apply(cfg)
             _guard(ctx, 'set_literal', r, _o_setlit, ctx, uc, cfg, r['value'], r['units'], r['sep'], _unit_fr(uc))
+        elif op == 'session' and r.get('steps'):
+            # the stored tail of the history (the pool is evaluated after every step, the stored strings first)
+            rs = random.Random(0)
+            pool = _Pool(rs, t)
+            extra = []
+            for x in r.get('strings', []):
+                tree = shadow_parse(x)
+                if tree is not None and all(x != it[0] for it in pool.items):
+                    try:
+                        v, d, e = ev(tree, t.si, t.dims, EU)
+                        extra.append((x, tree, tuple(d), v, e))
+                    except (Outside, EvalErr):
+                        pass
+            pool.items = extra + pool.items
+            for mode in ('search',) + (('corr',) if ctx.driver is not None else ()):
+                sess = _Session(ctx, uc, pool, mode)
+                prev = None
+                for cfg in r['steps']:
+                    prev = sess.step(cfg, rs, prev, 8, 8)
         elif op == 'default':
             search(ctx, False)
         else:
